@@ -141,9 +141,13 @@ ElemOffAt(n, k) ==
      ELSE Opt(m >= 1, <<Brk("R_ElementOffset", pos, v1, <<E(ep, "offset", m - 1)>>)>>) \o
           Opt(m >= 2, <<Brk("R_ElementOffset", pos, "zero", <<E(ep, "offset", 0)>>)>>) \o
           <<Bnd("R_ElementOffset", pos, "min", <<E(ep, "offset", m)>>)>> \o
-          \* growing a level header does not move anything else
-          Opt(LastNonConst(B!CompConsts(c), k) /\ n.depth = 0 /\ RoleOfTop(n.top) # "public",
-              <<Bnd("R_ElementOffset", pos, "min+3", <<E(ep, "offset", m + 3)>>)>>)
+          \* growing a message header / dimension does not move anything else
+          Opt(LastNonConst(B!CompConsts(c), k) /\ n.depth = 0 /\ RoleOfTop(n.top) \in {"header", "dimension"},
+              <<Bnd("R_ElementOffset", pos, "min+3", <<E(ep, "offset", m + 3)>>)>>) \o
+          \* a data header is a length prefix immediately followed by the payload: any
+          \* member moved away from its default place is a malformed header
+          Opt(n.depth = 0 /\ RoleOfTop(n.top) = "data-header" /\ c.elements[k].name \in {"length", "varData"},
+              <<Brk("R_DataLayout", pos, "min+2/" \o c.elements[k].name, <<E(ep, "offset", m + 2)>>)>>)
 ElementOffsetMuts == Flat(MapL(CompNodes, LAMBDA n : Flat([k \in 1 .. Len(n.e.elements) |-> ElemOffAt(n, k)])))
 
 BlockLenAt(lv) ==
